@@ -506,11 +506,8 @@ func ruleAGlobals(p *Program, r *Reporter) {
 					case *ssa.FieldAddr, *ssa.IndexAddr:
 						// address of a part of the global: any store or escape through it
 						v := in.(ssa.Value)
-						for _, ref := range *v.Referrers() {
-							if _, isLoad := ref.(*ssa.UnOp); isLoad {
-								continue
-							}
-							gi.bad = append(gi.bad, "address of a part of the global used by "+ref.String()+" in "+where)
+						if bad := addressOnlyRead(v, 0); bad != "" {
+							gi.bad = append(gi.bad, "address of a part of the global used by "+bad+" in "+where)
 						}
 						continue
 					}
@@ -736,4 +733,37 @@ func stdlibReadOnly(callee *ssa.Function) bool {
 		return false
 	}
 	return readOnlyPkgs[callee.Pkg.Pkg.Path()]
+}
+
+
+// addressOnlyRead: an address derived from a global is used only to read (loads, and addresses of sub-parts that are
+// themselves only read). Returns a description of the first other use, "" when there is none.
+func addressOnlyRead(v ssa.Value, depth int) string {
+	if depth > 4 || v.Referrers() == nil {
+		return "a deep address chain"
+	}
+	for _, ref := range *v.Referrers() {
+		switch x := ref.(type) {
+		case *ssa.UnOp:
+			if x.Op == token.MUL {
+				continue
+			}
+			return x.String()
+		case *ssa.FieldAddr:
+			if bad := addressOnlyRead(x, depth+1); bad != "" {
+				return bad
+			}
+		case *ssa.IndexAddr:
+			if x.X != v {
+				return x.String() // the address used as an index?
+			}
+			if bad := addressOnlyRead(x, depth+1); bad != "" {
+				return bad
+			}
+		case *ssa.DebugRef:
+		default:
+			return ref.String()
+		}
+	}
+	return ""
 }
